@@ -11,6 +11,8 @@ pub fn find_roots_reim(poly: Polynomial<f64>) -> (Vec<f64>, Vec<Complex<f64>>) {
     let mut im = vec![];
     // Randomly pick an initial starting point
     let mut rng = rand::thread_rng();
+    #[cfg(feature = "verif-hooks")]
+    let mut rng = crate::verif_hooks::shadow(rng);
     let mut trial = 3;
     while poly.deg() > 0 && trial > 0 {
         let der = poly.differential_complex();
@@ -37,6 +39,8 @@ pub fn find_roots(mut poly: Polynomial<Complex<f64>>) -> Vec<Complex<f64>> {
     let mut roots = vec![];
     // Randomly pick an initial starting point
     let mut rng = rand::thread_rng();
+    #[cfg(feature = "verif-hooks")]
+    let mut rng = crate::verif_hooks::shadow(rng);
     let mut trial = 3;
     while poly.deg() > 0 && trial > 0 {
         let der = poly.differential_complex();
